@@ -204,6 +204,12 @@ example : Routing.getRoutingKey toyEnc ⟨[⟨"v", 8⟩, ⟨"b", 2⟩, ⟨"a", 4
 example : Routing.getRoutingKey toyEnc ⟨[⟨"v", 8⟩, ⟨"id", 4⟩], [], "ks", "t"⟩ (some ["id"]) [[99], [7]] = .key (some [0, 0, 0, 7]) := by decide
 example : Routing.getRoutingKey toyEnc ⟨[⟨"v", 8⟩, ⟨"id", 4⟩], [], "ks", "t"⟩ (some ["id", "c"]) [[99], [7]] = .nokey := by decide
 
+/-- COUNTEREXAMPLE to totality (KF-C09-1): a statement `… SET v = ? WHERE id = ?` (key marker 1) executed with ONE bound value:
+    `createRoutingKey` indexes `values[1]` — a run-time panic on the real code (replay: `rkmx 4 1 q 1 1 0 0 2 | v bigint |
+    id int | 1 1 | i int64 99` ↦ crash). The routing theorems exclude it by requiring a value at every key marker. -/
+theorem C09_cex_short_values :
+    Routing.getRoutingKey toyEnc ⟨[⟨"v", 8⟩, ⟨"id", 4⟩], [1], "ks", "t"⟩ none [[99]] = .crash := by decide
+
 /-! ## token order -/
 
 /-- `Less` on tokens hashed from keys orders like Cassandra's `Long.compare` of its own hashes -/
